@@ -22,14 +22,27 @@ def triple(ec, cname, obj):
     return [int(obj.x()), int(obj.y()), 1]
 
 
+LAST_RAW = [None]
+
+
 def out_point(ec, f):
+    LAST_RAW[0] = []
     try:
         R = f()
         if R is ec.INFINITY or R == ec.INFINITY:
             return {"ok": True, "inf": True, "x": 0, "y": 0}
+        if isinstance(R, ec.PointJacobi):
+            LAST_RAW[0] = [int(v) for v in list(vars(R).values())[1]] if False else raw_of(R)
         return {"ok": True, "inf": False, "x": int(R.x()), "y": int(R.y())}
     except BaseException as e:  # noqa
         return {"ok": False, "exc": type(e).__name__}
+
+
+def raw_of(R):
+    for v in vars(R).values():
+        if isinstance(v, tuple) and len(v) == 3:
+            return [int(x) for x in v]
+    return []
 
 
 def make(ec, cf, pt, rep, p, order=None, gen=False):
@@ -59,7 +72,9 @@ def add_events(args):
     Z0 = {"t": [0, 1, 0]}
 
     def ev(op, A, B, out, pts, want, **kw):
-        e = {"c": c, "op": op, "A": {"t": A}, "B": {"t": B} if B is not None else Z0, "out": out, "k": 0, "ka": 0, "kb": 0}
+        e = {"c": c, "op": op, "A": {"t": A}, "B": {"t": B} if B is not None else Z0, "out": out, "k": 0, "ka": 0, "kb": 0,
+             "raw": list(LAST_RAW[0] or []) if (op in ("add", "double") and kw.pop("ajac", False)) else []}
+        kw.pop("ajac", None)
         e.update(kw)
         events.append(e)
         keys.append(["F8-y0"] if y0_involved(p, a, pts, want) else [])
@@ -70,7 +85,7 @@ def add_events(args):
             B = make(ec, cf, Q, rb if Q is not None else "inf", p)
             tA, tB = triple(ec, cname, A), triple(ec, cname, B)
             want = toy.t_add(P, Q, p, a)
-            ev("add", tA, tB, out_point(ec, lambda: A + B), [P, Q], want)
+            ev("add", tA, tB, out_point(ec, lambda: A + B), [P, Q], want, ajac=isinstance(A, ec.PointJacobi))
             try:
                 eqv = {"ok": True, "val": bool(A == B), "inf": False, "x": 0, "y": 0}
                 nev = bool(A != B)
@@ -86,7 +101,7 @@ def add_events(args):
             if A is ec.INFINITY:
                 continue
             tA = triple(ec, cname, A)
-            ev("double", tA, None, out_point(ec, lambda: A.double()), [P], toy.t_add(P, P, p, a))
+            ev("double", tA, None, out_point(ec, lambda: A.double()), [P], toy.t_add(P, P, p, a), ajac=isinstance(A, ec.PointJacobi))
             ev("neg", tA, None, out_point(ec, lambda: -A), [P], None)
             if isinstance(A, ec.PointJacobi):
                 A2 = make(ec, cf, P, ra, p)
@@ -139,7 +154,7 @@ def mul_events(args):
                 tA = triple(ec, cname, A)
                 left = rnd.random() < 0.5
                 out = out_point(ec, (lambda: k * A) if left else (lambda: A * k))
-                events.append({"c": c, "op": "mul", "A": {"t": tA}, "B": Z0, "k": k, "ka": 0, "kb": 0, "out": out,
+                events.append({"c": c, "op": "mul", "A": {"t": tA}, "B": Z0, "k": k, "ka": 0, "kb": 0, "out": out, "raw": [],
                                "how": name + ("/rmul" if left else "/mul")})
                 keys.append(["F8-y0"] if even_order(P) else [])
         # mul_add: a*P + b*Q for Q in {P, -P, 2P, identity, another point}
@@ -155,7 +170,7 @@ def mul_events(args):
                             B = make(ec, cf, Q, qrep, p, order, False)
                         tA, tB = triple(ec, cname, A), triple(ec, cname, B)
                         out = out_point(ec, lambda: A.mul_add(ka, B, kb))
-                        events.append({"c": c, "op": "muladd", "A": {"t": tA}, "B": {"t": tB}, "k": 0, "ka": ka, "kb": kb,
+                        events.append({"c": c, "op": "muladd", "A": {"t": tA}, "B": {"t": tB}, "k": 0, "ka": ka, "kb": kb, "raw": [],
                                        "out": out, "how": name})
                         keys.append(["F8-y0"] if even_order(P) or even_order(Q) else [])
                         if Q is None:
@@ -163,7 +178,7 @@ def mul_events(args):
     return events, keys
 
 
-TRACE_CFG = "INIT Init\nNEXT Next\nCHECK_DEADLOCK FALSE\n"
+TRACE_CFG = "INIT Init\nNEXT Next\nCHECK_DEADLOCK FALSE\nCONSTANTS ReduceHR = TRUE\n"
 
 
 def all_curves(p):
